@@ -229,6 +229,13 @@ class DictWriter:
                 "alignment": instruction.alignment,
                 "name": instruction.name,
             }
+        elif isinstance(instruction, ir.CopyBlob):
+            json_instruction = {
+                "kind": "copyblob",
+                "dst": self.write_value_ref(instruction.dst),
+                "src": self.write_value_ref(instruction.src),
+                "amount": instruction.amount,
+            }
         elif isinstance(instruction, ir.Binop):
             json_instruction = {
                 "kind": "binop",
@@ -524,6 +531,11 @@ class DictReader:
             alignment = json_instruction["alignment"]
             instruction = ir.Alloc(name, amount, alignment)
             self.register_value(instruction)
+        elif itype == "copyblob":
+            dst = self.get_value_ref(json_instruction["dst"])
+            src = self.get_value_ref(json_instruction["src"])
+            amount = json_instruction["amount"]
+            instruction = ir.CopyBlob(dst, src, amount)
         elif itype == "addressof":
             name = json_instruction["name"]
             ty = self.get_type(json_instruction["type"])
